@@ -331,6 +331,56 @@ func observe(r *core.Run, sc *scenario, canonical bool) (out []obs, permuted boo
 	b, _ = json.Marshal(sc.req)
 	add("Request.MarshalJSON", string(b))
 
+	// encoding the same object again, after it has been through the other encoders, gives the
+	// same bytes (an encoder must not leave traces in what it encodes)
+	for i, p := range sc.pols {
+		c1 := p.MarshalCedar()
+		j1, _ := p.MarshalJSON()
+		c2 := p.MarshalCedar()
+		j2, _ := p.MarshalJSON()
+		if (!bytes.Equal(c1, c2) || !bytes.Equal(j1, j2)) && direct == nil {
+			direct = core.Violationf("re-encoding-differs", "re-encoding-differs:Policy", "policy %d encodes differently the second time (Cedar text equal: %v, JSON equal: %v)", i, bytes.Equal(c1, c2), bytes.Equal(j1, j2))
+		}
+	}
+	{
+		c1 := ps.MarshalCedar()
+		j1, _ := ps.MarshalJSON()
+		c2 := ps.MarshalCedar()
+		j2, _ := ps.MarshalJSON()
+		if (!bytes.Equal(c1, c2) || !bytes.Equal(j1, j2)) && direct == nil {
+			direct = core.Violationf("re-encoding-differs", "re-encoding-differs:PolicySet", "the policy set encodes differently the second time")
+		}
+		e1, _ := json.Marshal(ents)
+		e2, _ := json.Marshal(ents)
+		if !bytes.Equal(e1, e2) && direct == nil {
+			direct = core.Violationf("re-encoding-differs", "re-encoding-differs:EntityMap", "the entity map encodes differently the second time")
+		}
+	}
+	for i, v := range sc.vals {
+		c1 := v.MarshalCedar()
+		j1, _ := json.Marshal(v)
+		s1 := v.String()
+		c2 := v.MarshalCedar()
+		j2, _ := json.Marshal(v)
+		if (!bytes.Equal(c1, c2) || !bytes.Equal(j1, j2) || s1 != v.String()) && direct == nil {
+			direct = core.Violationf("re-encoding-differs", "re-encoding-differs:Value", "value %d encodes differently the second time", i)
+		}
+	}
+	if sc.schema != nil {
+		var s schema.Schema
+		if err := s.UnmarshalCedar(sc.schema.Cedar); err == nil {
+			c1, e1 := s.MarshalCedar()
+			j1, e2 := s.MarshalJSON()
+			c2, e3 := s.MarshalCedar()
+			j2, e4 := s.MarshalJSON()
+			_, _ = s.Resolve()
+			c3, e5 := s.MarshalCedar()
+			if e1 == nil && e2 == nil && e3 == nil && e4 == nil && e5 == nil && (!bytes.Equal(c1, c2) || !bytes.Equal(j1, j2) || !bytes.Equal(c1, c3)) && direct == nil {
+				direct = core.Violationf("re-encoding-differs", "re-encoding-differs:Schema", "schema %s encodes differently after it has been encoded in the other format / resolved\n  first:  %s\n  second: %s", sc.schema.Name, clip(string(c1)), clip(string(c2)))
+			}
+		}
+	}
+
 	// the same contents reached through different construction histories must encode identically
 	if loaded, err := cedar.NewPolicySetFromBytes("doc.cedar", sc.doc); err == nil {
 		added := cedar.NewPolicySet()
